@@ -5,7 +5,10 @@
 export GOFLAGS=-mod=mod GOPROXY=off GOSUMDB=off GOTOOLCHAIN=local
 d=$(cd "$1" && pwd); wt=/tmp/vseed-$$
 demo_dir=$(python3 -c "import json;print(json.load(open('$d/meta.json'))['demo_dir'])")
-demo_cmd=$(python3 -c "import json;print(json.load(open('$d/meta.json')).get('demo_cmd','go test -count=1 ./...'))")
+demo_cmd=$(python3 -c "
+import json,re
+m=json.load(open('$d/meta.json'))
+print(re.sub(r'/tmp/seed/C[0-9]+[a-z]?', '$wt', m.get('demo_cmd','go test -count=1 ./...')))")
 git -C /repo worktree add -q --detach $wt HEAD || exit 2
 res=""
 run_demo() { (cd $wt && cp $d/demo_test.go $demo_dir/zz_demo_test.go && (cd $wt/$demo_dir 2>/dev/null; cd $wt; timeout 900 sh -c "$demo_cmd" >/tmp/vseed-$$.log 2>&1); rc=$?; rm -f $demo_dir/zz_demo_test.go; return $rc); }
